@@ -26,6 +26,9 @@ H = {
     "commit_scalars_respected_n1": dict(crate="zkchannels-crypto", what="generate_proof_commitments uses caller-given commitment scalars unchanged and stores the message unchanged (N=1; all given scalars, all RNG outputs; commit and from_bytes_wide stubbed)", functions=["cproof.CommitmentProofBuilder::generate_proof_commitments (statement 3: scalar selection closure)"], bound="tuple length N=1"),
     "commit_scalars_respected_n2": dict(crate="zkchannels-crypto", what="same, N=2", functions=["cproof.CommitmentProofBuilder::generate_proof_commitments (statement 3: scalar selection closure)"], bound="tuple length N=2"),
     "commit_scalars_respected_n3": dict(crate="zkchannels-crypto", what="same, N=3", functions=["cproof.CommitmentProofBuilder::generate_proof_commitments (statement 3: scalar selection closure)"], bound="tuple length N=3"),
+    "commit_open_slots_fresh_n1": dict(crate="zkchannels-crypto", what="generate_proof_commitments: every slot left open by the caller gets a draw of its own (tagged RNG stub): open-slot scalars are draws, pairwise different, and different from the draws of the blinding factor and of its commitment scalar (N=1; all patterns of given/open slots)", functions=["cproof.CommitmentProofBuilder::generate_proof_commitments (statement 3: scalar selection closure)"], bound="tuple length N=1"),
+    "commit_open_slots_fresh_n2": dict(crate="zkchannels-crypto", what="same, N=2", functions=["cproof.CommitmentProofBuilder::generate_proof_commitments (statement 3: scalar selection closure)"], bound="tuple length N=2"),
+    "commit_open_slots_fresh_n3": dict(crate="zkchannels-crypto", what="same, N=3", functions=["cproof.CommitmentProofBuilder::generate_proof_commitments (statement 3: scalar selection closure)"], bound="tuple length N=3"),
     "range_digits_exact": dict(crate="zkchannels-crypto", what="prefix of generate_constraint_commitments (sign test + digit decomposition, sliced verbatim): Err iff value < 0; otherwise 9 digits < 128 with sum d_j*128^j == value; all i64, bit-precise, shape-independent", functions=["range.RangeConstraintBuilder::generate_constraint_commitments (statements before the digit proof builders)"]),
     "g1_codec_validates": dict(crate="zkchannels-crypto", what="G1 element codec: for all 48-byte strings the wire bytes reach bls12_381 G1Affine::from_compressed unchanged, exactly once, no non-validating decoder is reached, and the result is Ok iff that decoder accepts; shorter input is an error", functions=["serde.<G1Affine as SerializeElement>::deserialize"]),
     "g1_codec_short_input": dict(crate="zkchannels-crypto", what="G1 element codec: any input shorter than 48 bytes is an error (no panic) and reaches no decoder", functions=["serde.<G1Affine as SerializeElement>::deserialize"]),
